@@ -169,12 +169,20 @@ MsgParse(T, i) ==
 MsgHash(T, i) == ReprHash(InfoTable(T)[i])
 
 ShiftRefs(T, k) == [j \in 1..Len(T) |-> [T[j] EXCEPT !.r = [n \in 1..Len(T[j].r) |-> T[j].r[n] + k]]]
-\* The body of a parsed message as a cell table whose cell 1 is the body cell: the referenced cell, or the cell
-\* made of what follows the header (remaining bits, remaining references) when the body is stored inline.
+\* cells reachable from the set S0 of cells (references point forward: one ascending pass)
+ReachFrom(T, S0) == FoldLeft(LAMBDA acc, i : IF i \in acc THEN acc \cup {T[i].r[j] : j \in 1..Len(T[i].r)} ELSE acc,
+                             S0, [i \in 1..Len(T) |-> i])
+\* the sub-DAG under S0 as a table of its own (same relative order), placed after `lead` other cells; Rank maps old indices to new
+Rank(R, lead, o) == lead + Cardinality({x \in R : x <= o})
+SubTable(T, R, lead) ==
+  LET seq == SetToSortSeq(R, LAMBDA a, b : a < b) IN
+  [k \in 1..Len(seq) |-> [T[seq[k]] EXCEPT !.r = [n \in 1..Len(T[seq[k]].r) |-> Rank(R, lead, T[seq[k]].r[n])]]]
+\* The body of a parsed message as a cell table whose cell 1 is the body cell: the referenced cell with everything below it,
+\* or the cell made of what follows the header (remaining bits, remaining references) when the body is stored inline.
 BodyTable(T, mp) ==
-  LET S == ShiftRefs(T, 1) IN
-  IF mp.body = "ref" THEN <<S[mp.bref]>> \o S
-  ELSE <<[b |-> mp.bbits, x |-> Ordinary, m |-> 0, r |-> [n \in 1..Len(mp.brefs) |-> mp.brefs[n] + 1]]>> \o S
+  IF mp.body = "ref" THEN SubTable(T, ReachFrom(T, {mp.bref}), 0)
+  ELSE LET R == ReachFrom(T, {mp.brefs[n] : n \in 1..Len(mp.brefs)}) IN
+       <<[b |-> mp.bbits, x |-> Ordinary, m |-> 0, r |-> [n \in 1..Len(mp.brefs) |-> Rank(R, 1, mp.brefs[n])]]>> \o SubTable(T, R, 1)
 BodyHash(BT) == ReprHash(InfoTable(WithMasks(BT))[1])
 
 \* destination as bits; keepAny = FALSE drops the anycast (anycast:nothing$0)
@@ -267,10 +275,10 @@ HmLeaves(T, i, m, pre) ==
   ELSE LET L == HmLeaves(T, c.r[1], rest - 1, k \o <<0>>)
            R == HmLeaves(T, c.r[2], rest - 1, k \o <<1>>)
        IN [ok |-> L.ok /\ R.ok, s |-> L.s \cup R.s]
-\* out_msgs of a parsed transaction: key (15 bits) -> index of the message cell (the leaf's only reference)
+\* out_msgs of a parsed transaction: pairs <<key (uint15), index of the message cell (the leaf's only reference)>>
 OutMsgs(T, tp) ==
   IF ~tp.hasOut THEN [ok |-> TRUE, s |-> {}]
   ELSE LET lv == HmLeaves(T, tp.outRoot, 15, <<>>) IN
        IF ~lv.ok \/ \E x \in lv.s : Len(T[x[2]].r) # 1 THEN [ok |-> FALSE, s |-> {}]
-       ELSE [ok |-> TRUE, s |-> {<<x[1], T[x[2]].r[1]>> : x \in lv.s}]
+       ELSE [ok |-> TRUE, s |-> {<<BitsNat(x[1]), T[x[2]].r[1]>> : x \in lv.s}]
 =============================================================================
